@@ -46,8 +46,14 @@ func headerToMap(header []byte) (map[string]string, error) {
 	offset := 0
 	m := make(map[string]string)
 	for offset < len(header) {
+		if len(header)-offset < 4 {
+			return nil, fmt.Errorf("short header field length")
+		}
 		fieldlen := binary.LittleEndian.Uint32(header[offset : offset+4])
 		offset += 4
+		if uint64(fieldlen) > uint64(len(header)-offset) {
+			return nil, fmt.Errorf("header field length %d exceeds the %d bytes remaining", fieldlen, len(header)-offset)
+		}
 		index := bytes.IndexByte(header[offset:offset+int(fieldlen)], '=')
 		if index < 0 {
 			return nil, fmt.Errorf("missing kv separator")
@@ -74,6 +80,9 @@ func extractHeaderValue(header []byte, key []byte) ([]byte, error) {
 		fieldlen, offset, err = getUint32(header, offset)
 		if err != nil {
 			return nil, fmt.Errorf("failed to extract field length: %w", err)
+		}
+		if uint64(fieldlen) > uint64(len(header)-offset) {
+			return nil, fmt.Errorf("header field length %d exceeds the %d bytes remaining", fieldlen, len(header)-offset)
 		}
 		field := header[offset : offset+int(fieldlen)]
 		separatorIdx := bytes.Index(field, []byte{'='})
@@ -153,6 +162,10 @@ func processBag(
 		opcode, err := extractHeaderValue(headerData, headerOp)
 		if err != nil {
 			return err
+		}
+
+		if len(opcode) == 0 {
+			return fmt.Errorf("empty op field in record header")
 		}
 
 		if opcode[0] == OpBagChunk {
@@ -247,6 +260,9 @@ func Bag2MCAP(w io.Writer, r io.Reader, opts *mcap.WriterOptions, messageCallbac
 			if err != nil {
 				return err
 			}
+			if len(conn) < 4 {
+				return fmt.Errorf("short conn field in connection record")
+			}
 			connID := binary.LittleEndian.Uint32(conn)
 			topic, err := extractHeaderValue(header, headerTopic)
 			if err != nil {
@@ -295,10 +311,16 @@ func Bag2MCAP(w io.Writer, r io.Reader, opts *mcap.WriterOptions, messageCallbac
 			if err != nil {
 				return err
 			}
+			if len(conn) < 4 {
+				return fmt.Errorf("short conn field in message record")
+			}
 			connID := binary.LittleEndian.Uint32(conn)
 			time, err := extractHeaderValue(header, headerTime)
 			if err != nil {
 				return err
+			}
+			if len(time) < 8 {
+				return fmt.Errorf("short time field in message record")
 			}
 			nsecs := rosTimeToNanoseconds(time)
 			channelID, err := channelIDForConnection(connID)
